@@ -5,7 +5,7 @@ EXTENDS Account, Json
 CONSTANT EmitEdges
 
 St == [folders |-> folders, name |-> name, desc |-> desc, flag |-> flag,
-       sec |-> sec, epoch |-> epoch, aepoch |-> aepoch]
+       sec |-> sec, epoch |-> epoch, aepoch |-> aepoch, cflips |-> cflips]
 
 Emit(args) ==
   EmitEdges => PrintT(<<"EDGE", ToJson([from |-> St, act |-> out'.act, args |-> args,
@@ -31,9 +31,10 @@ ALockUnlock == \E f \in AllFolders : LockUnlock(f) /\ Emit(<<f>>)
 ACompact == \E f \in AllFolders : Compact(f) /\ Emit(<<f>>)
 AChangeFolderPassword == \E f \in AllFolders : ChangeFolderPassword(f) /\ Emit(<<f>>)
 AChangeAccountPassword == ChangeAccountPassword /\ Emit(<<>>)
+AChangeCipher == ChangeCipher /\ Emit(<<>>)
 
 MCNext == \/ ACreateSecret \/ AUpdateSecret \/ ADeleteSecret \/ AMoveSecret \/ AArchive
           \/ AUnarchive \/ ACreateFolder \/ ADeleteFolder \/ ASetFlags \/ ARenameFolder
           \/ ASetDescription \/ ASignOutIn \/ ALockUnlock \/ ACompact
-          \/ AChangeFolderPassword \/ AChangeAccountPassword
+          \/ AChangeFolderPassword \/ AChangeAccountPassword \/ AChangeCipher
 =============================================================================
